@@ -467,6 +467,10 @@ impl VSendPool {
       None => false,
     }
   }
+  /// does a session still hold a lease on this buffer?
+  pub fn leased(&self, id: u16) -> bool {
+    self.leases.contains_key(&id)
+  }
   pub fn release(&self, id: u16) {
     self.pool.release_buffer(crate::io_uring_backend::send_buffer_pool::RegisteredSendBufferId(id))
   }
